@@ -113,13 +113,13 @@ def tree_hash(paths):
 
 
 def pre_build_hooks():
-    sh([sys.executable, os.path.join(VERIF, "tools", "gen_coqproject.py")], cwd=VERIF)
-    """Regenerating translators (DESIGN §3.2) run before the Coq build."""
+    """Regenerating translators (DESIGN §3.2) run before the Coq build, then the project files."""
     gen = os.path.join(VERIF, "tools", "regen.py")
     if os.path.exists(gen):
         p = sh([sys.executable, gen], cwd=VERIF, check=False)
         if p.returncode != 0:
             raise Broken("translator: regenerating Gen/*.v from /repo sources failed", p.stdout[-4000:])
+    sh([sys.executable, os.path.join(VERIF, "tools", "gen_coqproject.py")], cwd=VERIF)
 
 
 def build_coq(targets=None):
